@@ -391,7 +391,15 @@ class C17(Check):
                 elif op == "jread" and node is not None and d.p(0.6):
                     # a document that fits the schema: the specification's JSON encoding of a conforming datum
                     try:
-                        docs = [json.dumps(J.encode(node, table, d.choice(good), B.Picker(fn=B.first_conforming))) for _ in range(d.rng(1, 2))]
+                        objs = [J.encode(node, table, d.choice(good), B.Picker(fn=B.first_conforming)) for _ in range(d.rng(1, 2))]
+                        top = M.deref(node, table)
+                        if top["k"] == "record":
+                            # keys that have a default may be absent: the decoder then takes the schema's default object
+                            for o in objs:
+                                for f in top["fields"]:
+                                    if "default" in f and d.p(0.5):
+                                        o.pop(f["name"], None)
+                        docs = [json.dumps(o) for o in objs]
                     except Exception:
                         docs = ["{}"]
                     calls.append({"op": "jread", "schema": schema, "text": "\n".join(docs)})
@@ -413,6 +421,13 @@ class C17(Check):
         return histories()
 
     def fixed_cases(self, tier):
+        # a parsed object with optional attributes left out (decimal without scale), re-used by every kind of writer
+        for op, arg in (("swrite", {"datum": copy.deepcopy(POOL[17][1][0])}), ("cwrite", {"records": copy.deepcopy(POOL[17][1]), "codec": "null"}), ("jwrite", {"records": copy.deepcopy(POOL[17][1])}),
+                        ("validate", {"datum": copy.deepcopy(POOL[17][1][0]), "raise": False})):
+            yield {"calls": [{"op": "parse", "schema": copy.deepcopy(POOL[17][0]), "slot": 0}, dict({"op": op, "schema": {"slot": 0}}, **arg), {"op": "canon", "schema": {"slot": 0}}]}
+        # nested containers as defaults of absent JSON keys, raw and through a re-used parsed object
+        yield {"calls": [{"op": "jread", "schema": copy.deepcopy(POOL[16][0]), "text": "{}\n{}"}, {"op": "parse", "schema": copy.deepcopy(POOL[16][0]), "slot": 0},
+                         {"op": "jread", "schema": {"slot": 0}, "text": "{}"}, {"op": "jread", "schema": {"slot": 0}, "text": "{}\n{}"}]}
         yield {"calls": [{"op": "swrite", "schema": copy.deepcopy(DOGCAT2), "datum": {"legs": 2}}, {"op": "swrite", "schema": copy.deepcopy(DOGCAT1), "datum": {"legs": 4, "tricks": 7, "walks": 2}}]}
         yield {"calls": [{"op": "cread", "data": RC.write([([("avro.schema", json.dumps(ITEM_DEF).encode())], False)], MARK, [(1, b"\x06A-1")], "null")[0], "reader": None},
                          {"op": "sread", "schema": copy.deepcopy(ITEM_REF), "data": b"\x06A-1", "reader": None}]}
